@@ -26,7 +26,11 @@ RULE = (
     "c^2 |kappa|^2 |h_k|^2) preserved on odd N / Nyquist-free states. Non-trivial: energy in >= 3 radial "
     "shells including the highest one and a step that is not the identity."
 )
-ASSUMPTIONS = ["float64 session", "the L2 norm of the wave state (h, v) is not claimed (h and v exchange energy)"]
+ASSUMPTIONS = [
+    "float64 session",
+    "the L2 norm of the wave state (h, v) is not claimed (h and v exchange energy)",
+    "tolerances carry a factor (1 + 1e-5*max|Im lambda dt|): the complex exponential of a huge phase has modulus 1 only up to about 1e-17*phase",
+]
 
 VARIANTS = [
     "adv_s", "adv_v", "diff_s", "diff_v", "diff_psd", "advdiff_ss", "advdiff_vm",
@@ -135,7 +139,7 @@ def strategy(stratum, tier):
             v=st.just(v),
             D=st.just(D),
             N=st.just(N),
-            L=gens.st_L(),
+            L=gens.st_L(extreme=True),
             dt=gens.log_floats(1e-6, 1e6),
             kw=kw_strategy(v, D),
             state=st.one_of(gens.st_white(0.1, 10.0), gens.st_white(0.1, 10.0), gens.st_white(0.1, 10.0, kind="nyqfree")),
@@ -189,26 +193,30 @@ def check(case):
             return float(np.sum(w * (np.abs(Y[1]) ** 2 + c * c * k2 * np.abs(Y[0]) ** 2)))
 
         e = np.array([energy(trj[j]) for j in range(trj.shape[0])])
+        # |exp(i theta)| deviates from 1 by about 1e-17*theta for large phases theta = omega*dt
+        ph = 1.0 + 1e-3 * c * float(np.max(np.sqrt(k2))) * abs(dte)
         if nyq_free:
-            res.claim("wave_energy_conserved", float(np.max(np.abs(e - e[0]))), 1e-11 * e[0] * (1 + n * 1e-2) + 1e-300, key=key + ":wave_energy")
+            res.claim("wave_energy_conserved", float(np.max(np.abs(e - e[0]))), 1e-11 * e[0] * n * ph + 1e-300, key=key + ":wave_energy")
         else:
-            res.claim("wave_energy_not_increasing", float(np.max(e[1:] - e[:-1])), 1e-11 * e[0] + 1e-300, key=key + ":wave_energy")
+            res.claim("wave_energy_not_increasing", float(np.max(e[1:] - e[:-1])), 1e-11 * e[0] * ph + 1e-300, key=key + ":wave_energy")
         res.nontrivial = True
         return res
     norms = np.sqrt((trj.reshape(trj.shape[0], -1) ** 2).sum(axis=1))
     ratio = norms[1:] / np.maximum(norms[:-1], 1e-300)
-    res.claim("norm_never_increases", float(np.max(ratio)), 1.0 + 1e-12, key=key + ":amplification", msg="worst step ratio-1 = %.3g" % (float(np.max(ratio)) - 1))
     lam = reg.linear_symbol(spec, kap)
+    # |exp(i theta)| deviates from 1 by about 1e-17*theta for large phases theta = |Im lambda dt|
+    ph = 1.0 + 1e-5 * float(np.max(np.abs(lam.imag))) * abs(dte)
+    res.claim("norm_never_increases", float(np.max(ratio)) - 1.0, 1e-12 * ph, key=key + ":amplification", msg="worst step ratio-1 = %.3g" % (float(np.max(ratio)) - 1))
     conservative = v in CONSERVATIVE or float(np.max(np.abs(lam.real))) == 0.0
     if conservative and nyq_free:
-        res.claim("norm_preserved", float(np.max(np.abs(norms - norms[0]))), 1e-12 * norms[0] * (1 + n), key=key + ":preservation")
+        res.claim("norm_preserved", float(np.max(np.abs(norms - norms[0]))), 1e-12 * norms[0] * (1 + n) * ph, key=key + ":preservation")
         res.tag("norm_preserved_claimed")
     if v in STRICT:
         U0 = np.abs(orc.rfftn(trj[0]))
         U1 = np.abs(orc.rfftn(trj[1]))
         nz = (np.abs(kap).sum(0) > 0)[None] & (U0 > 1e-9 * np.max(U0))
         if nz.any():
-            res.claim("every_nonconstant_mode_shrinks", float(np.max((U1 / np.maximum(U0, 1e-300))[nz])), 1.0 - 1e-10, key=key + ":strict")
+            res.claim("every_nonconstant_mode_shrinks", float(np.max((U1 / np.maximum(U0, 1e-300))[nz])) - 1.0 + 1e-9, 9e-10, key=key + ":strict")
     z = np.abs(lam * dte)
     res.nontrivial = bool(np.max(z) > 1e-6 and N >= 4)
     return res
